@@ -14,7 +14,7 @@ func seq(fs ...func(*Ctx)) func(*Ctx) {
 
 // All maps property ids to their rule sets.
 var All = map[string]func(*Ctx){
-	"C01": seq(C01, (*Ctx).c12OTP, (*Ctx).c12Recovery, (*Ctx).hasherPassThrough, func(c *Ctx) { c.flushUnmodified("C01.queue") }),
+	"C01": seq(C01, (*Ctx).c12OTP, (*Ctx).c12Recovery, (*Ctx).hasherPassThrough, (*Ctx).smsInvariant, func(c *Ctx) { c.flushUnmodified("C01.queue") }),
 	"C02": seq(C02, (*Ctx).c12Recovery, (*Ctx).c12SMS, (*Ctx).c01Pending, func(c *Ctx) {
 		c.beforeHandlersIssueNothing("C02.before-no-issue")
 		c.localizeFallback("C02.status-text")
@@ -31,25 +31,38 @@ var All = map[string]func(*Ctx){
 		c.logoutClear("C07.logout-cookie", "C07.logout-cookie", true)
 		c.rememberRevokeWire("C07.revoke-wire", "C07.revoke")
 		c.ctxUserFirst("C07.subject")
+		c.rememberOnlyOnTrue("C07.on-request")
 	}),
-	"C08": seq(C08, func(c *Ctx) { c.mwOutermost("C08.outermost") }),
+	"C08": seq(C08, func(c *Ctx) {
+		c.mwOutermost("C08.outermost")
+		c.apiStatusVerbatim("C08.api-status")
+	}),
 	"C09": seq(C09, (*Ctx).flushDiscipline, func(c *Ctx) { c.flushUnmodified("C09.queue") }),
 	"C10": C10,
-	"C11": C11,
+	"C11": seq(C11, func(c *Ctx) { c.noStateAfterWrite("C11.before-write") }),
 	"C12": seq(C12, (*Ctx).smsInvariant, func(c *Ctx) { c.localizeFallback("C12.status-text") }),
 	"C13": seq(C13, func(c *Ctx) {
 		c.localizeFallback("C13.status-text")
 		c.halfAuthUpgradeGated("C13.halfauth-upgrade")
 	}),
-	"C14": seq(C14, func(c *Ctx) { c.flushUnmodified("C14.queue") }),
+	"C14": seq(C14, func(c *Ctx) {
+		c.flushUnmodified("C14.queue")
+		c.providerErrors("C14.details-err")
+	}),
 	"C15": seq(C15, func(c *Ctx) { c.oauthParamsReset("C15.params-reset") }),
 	"C16": seq(C16, func(c *Ctx) {
 		c.verdictNotAnError("C16.verdict")
 		c.ctxUserFirst("C16.subject")
 		c.vetoesFirst("C16.vetoes-first")
+		if uls := c.P.FuncOpt("(*ab/lock.Lock).updateLockedState"); uls != nil {
+			c.lockStateStructure(uls)
+		}
 	}),
 	"C17": C17,
 	"C18": C18,
 	"C19": seq(C19, (*Ctx).hasherPassThrough),
-	"C20": seq(C20, func(c *Ctx) { c.moduleCopied("C20.instance") }),
+	"C20": seq(C20, func(c *Ctx) {
+		c.moduleCopied("C20.instance")
+		c.ctxDataReadOnly("C20.ctx-data")
+	}),
 }
